@@ -319,7 +319,11 @@ func (c *kCtx) drain(k *kSys, hist []int, op int) {
 		c.deadlocks++
 		site := c.deadlockSite(blocked)
 		outcome = "deadlock:" + site
-		c.viol("deadlock", "send-under-stateLock/"+site, fmt.Sprintf("calls that never return: %v; blocked outside the state lock: %s (the request channel is full, the sender holds the state lock, the plotter needs it to make room)", pend, site), hist, op)
+		if site == "no-call-blocked-outside-the-state-lock" {
+			c.viol("deadlock", "state-lock-never-released", fmt.Sprintf("calls that never return: %v; every blocked call waits for the state lock and no call holds it: a holder returned without unlocking", pend), hist, op)
+		} else {
+			c.viol("deadlock", "send-under-stateLock/"+site, fmt.Sprintf("calls that never return: %v; blocked outside the state lock: %s (the request channel is full, the sender holds the state lock, the plotter needs it to make room)", pend, site), hist, op)
+		}
 	}
 	c.outcomes[outcome] = true
 }
